@@ -4,6 +4,8 @@
 import Verif.Model.C10
 import Verif.NumReal
 import Mathlib.Tactic.FieldSimp
+import Mathlib.Analysis.SpecialFunctions.Complex.Log
+import Mathlib.Algebra.Field.GeomSum
 import Mathlib.Tactic.Positivity
 import Mathlib.Order.Defs.LinearOrder
 import Mathlib.Tactic.Ring
